@@ -75,6 +75,9 @@ abbrev M := Except (Eng × Res)
 
 def fail {α} (s : Eng) (r : Res) : M α := .error (s, r)
 
+/-- a check of the code: continue if `p` holds, otherwise fail with result `r` (state `s`) -/
+def ensure (s : Eng) (p : Prop) [Decidable p] (r : Res) : M Unit := if p then pure () else fail s r
+
 def liftCk {α} (s : Eng) (x : Except String α) : M α :=
   match x with
   | .ok a => pure a
@@ -82,8 +85,8 @@ def liftCk {α} (s : Eng) (x : Except String α) : M α :=
 
 /-- `writeDatabasePage(f, pgno, data)` (the caller has the file open) -/
 def writeDatabasePage (s : Eng) (pgno : Nat) (data : ByteArray) : M Eng := do
-  if s.pageSize = 0 then fail s (.panic "panic assertion failed: page size required")
-  if data.size ≠ s.pageSize then fail s .err
+  ensure s (¬ (s.pageSize = 0)) (.panic "panic assertion failed: page size required")
+  ensure s (¬ (data.size ≠ s.pageSize)) .err
   let f := s.dbFile.getD ByteArray.empty
   let f := writeAt f ((pgno - 1) * s.pageSize) data
   let s := { s with dbFile := some f }
@@ -99,28 +102,28 @@ def truncateDatabaseFile (s : Eng) (pageN : Nat) : M Eng := do
 
 /-- `WriteDatabaseAt` (file handle already open) -/
 def writeDatabaseAt (s : Eng) (offset : Nat) (data : ByteArray) : M Eng := do
-  if !s.writeable then fail s .readonly
+  ensure s (¬ (!s.writeable)) .readonly
   if data.size = 0 then return s
   let s ← (if s.pageSize = 0 then do
-      if offset ≠ 0 then fail s .err
+      ensure s (¬ (offset ≠ 0)) .err
       match readDBHeader data with
       | .error _ => fail s .err
       | .ok h => pure { s with pageSize := h.pageSize }
     else pure s)
-  if s.pageSize = 0 then fail s (.panic "panic runtime error: integer divide by zero")
-  if offset % s.pageSize ≠ 0 then fail s .err
-  if data.size ≠ s.pageSize then fail s .err
+  ensure s (¬ (s.pageSize = 0)) (.panic "panic runtime error: integer divide by zero")
+  ensure s (¬ (offset % s.pageSize ≠ 0)) .err
+  ensure s (¬ (data.size ≠ s.pageSize)) .err
   let pgno := offset / s.pageSize + 1
   let s := if !s.walMode && !s.dirty.contains pgno then { s with dirty := pgno :: s.dirty } else s
   writeDatabasePage s pgno data
 
 /-- `TruncateDatabase(size)` -/
 def truncateDatabase (s : Eng) (size : Nat) : M Eng := do
-  if s.pageSize = 0 then fail s .err
-  if size % s.pageSize ≠ 0 then fail s .err
+  ensure s (¬ (s.pageSize = 0)) .err
+  ensure s (¬ (size % s.pageSize ≠ 0)) .err
   let pageN := size / s.pageSize
-  if pageN ≠ s.pageN then fail s .err
-  if s.dbFile.isNone then fail s .enoent
+  ensure s (¬ (pageN ≠ s.pageN)) .err
+  ensure s (¬ (s.dbFile.isNone)) .enoent
   truncateDatabaseFile s pageN
 
 /-- `invalidateJournal(mode)`; modes: 0 DELETE, 1 TRUNCATE, 2 PERSIST -/
@@ -170,26 +173,26 @@ def addLTX (l : List LTXFile) (f : LTXFile) : List LTXFile :=
 def commitJournalValid (s : Eng) (mode : Nat) : M Eng := do
   let txid := s.posTxid + 1
   let dbf ← (match s.dbFile with | none => fail s .err | some f => pure f)
-  if dbf.size < 32 then fail s .err
+  ensure s (¬ (dbf.size < 32)) .err
   let commit := be32 dbf 28
   let pgnos := sortNat (s.dirty.filter (· ≤ commit))
   let hdr : LTXFile := { minTxid := txid, maxTxid := txid, pre := s.posChk, post := 0, commit, pageSize := s.pageSize, pages := [] }
-  if !headerOK hdr then fail s .err
+  ensure s (¬ (!headerOK hdr)) .err
   let s := { s with w := { s.w with chksums := [] } }
   let lock ← liftCk s (lockPgno s.pageSize)
   -- copy pages
-  let (s, pages, _, walMode) ← pgnos.foldlM (fun (st : Eng × List (Nat × ByteArray) × Nat × Bool) pgno => do
-    let (s, pages, prev, wm) := st
+  let (pages, _, walMode) ← pgnos.foldlM (fun (st : List (Nat × ByteArray) × Nat × Bool) pgno => do
+    let (pages, prev, wm) := st
     if pgno = lock then pure st else
     let off := (pgno - 1) * s.pageSize
-    if dbf.size < off + s.pageSize then fail s .err
+    ensure s (¬ (dbf.size < off + s.pageSize)) .err
     let buf := dbf.extract off (off + s.pageSize)
-    if !encodePageOK txid commit s.pageSize prev pgno then fail s .err
+    ensure s (¬ (!encodePageOK txid commit s.pageSize prev pgno)) .err
     let wm := if pgno = 1 && getD buf 18 == 2 && getD buf 19 == 2 then true else wm
     let (c, ok) ← liftCk s (s.ck.pageChecksum s.w.chksums s.pageSize pgno commit [])
-    if !ok then fail s .err
-    if pageChk pgno buf != c then fail s .err
-    pure (s, pages ++ [(pgno, buf)], pgno, wm)) (s, [], 0, false)
+    ensure s (¬ (!ok)) .err
+    ensure s (¬ (pageChk pgno buf != c)) .err
+    pure (pages ++ [(pgno, buf)], pgno, wm)) ([], 0, false)
   -- remove all checksums after the last page
   let ck ← liftCk s ((List.range (s.ck.pages.length - commit)).foldlM (fun (c : Cache) i =>
       let pgno := commit + i + 1
@@ -204,17 +207,17 @@ def commitJournalValid (s : Eng) (mode : Nat) : M Eng := do
 
 /-- `CommitJournal(mode)` -/
 def commitJournal (s : Eng) (mode : Nat) : M Eng := do
-  if !s.writeable then fail s .readonly
+  ensure s (¬ (!s.writeable)) .readonly
   -- isJournalHeaderValid
   let j ← (match s.journal with | none => fail s .err | some j => pure j)
-  if j.size < 8 then fail s .err
+  ensure s (¬ (j.size < 8)) .err
   if j.extract 0 8 != journalMagic then return ← invalidateJournal s mode
   if s.pageSize = 0 then return ← invalidateJournal s mode
   commitJournalValid s mode
 
 /-- `WriteJournalAt` (journal handle open) -/
 def writeJournalAt (s : Eng) (offset : Nat) (data : ByteArray) : M Eng := do
-  if !s.writeable then fail s .readonly
+  ensure s (¬ (!s.writeable)) .readonly
   let s := if offset = 0 && data.size ≥ 28 && s.pageSize = 0 then { s with pageSize := be32 data 24 } else s
   let s ← (if offset = 0 && data.size = 28 && isZero data then commitJournal s 2 else pure s)
   match s.journal with
@@ -223,35 +226,35 @@ def writeJournalAt (s : Eng) (offset : Nat) (data : ByteArray) : M Eng := do
 
 /-- `WriteWALAt` (WAL handle open) -/
 def writeWALAt (s : Eng) (offset : Nat) (data : ByteArray) : M Eng := do
-  if !s.writeable then fail s .readonly
+  ensure s (¬ (!s.writeable)) .readonly
   if data.size = 0 then return s
-  if s.pageSize = 0 then fail s (.panic "panic assertion failed: page size cannot be zero for wal write")
+  ensure s (¬ (s.pageSize = 0)) (.panic "panic assertion failed: page size cannot be zero for wal write")
   let frameSize := 24 + s.pageSize
   let excl := s.locks.state .write == .exclusive
   let put (s : Eng) : Eng := { s with wal := some (writeAt (s.wal.getD ByteArray.empty) offset data) }
   if offset = 0 then
-    if data.size ≠ 32 then fail s .err
-    if !excl then fail s .err
+    ensure s (¬ (data.size ≠ 32)) .err
+    ensure s (¬ (!excl)) .err
     let magic := be32 data 0
-    if magic ≠ walMagicLE ∧ magic ≠ walMagicBE then fail s .err
+    ensure s (¬ (magic ≠ walMagicLE ∧ magic ≠ walMagicBE)) .err
     let w : WalSt := { offset := 32, bo := some (magic = walMagicBE), salt1 := be32 data 16, salt2 := be32 data 20,
                        chk1 := be32 data 24, chk2 := be32 data 28, frameOffsets := [], chksums := [] }
     return put { s with w := w }
   -- frame header (full or partial) or frame data: same guards
-  if !excl then fail s .err
-  if offset < s.w.offset then fail s .err
+  ensure s (¬ (!excl)) .err
+  ensure s (¬ (offset < s.w.offset)) .err
   let _ := frameSize
   return put s
 
 /-- `TruncateWAL(size)` -/
 def truncateWAL (s : Eng) (size : Nat) : M Eng := do
-  if size ≠ 0 then fail s .err
-  if s.wal.isNone then fail s .enoent
+  ensure s (¬ (size ≠ 0)) .err
+  ensure s (¬ (s.wal.isNone)) .enoent
   pure { s with wal := some ByteArray.empty, w := { s.w with frameOffsets := [], chksums := [] } }
 
 /-- `RemoveWAL` -/
 def removeWAL (s : Eng) : M Eng := do
-  if s.wal.isNone then fail s .enoent
+  ensure s (¬ (s.wal.isNone)) .enoent
   pure { s with wal := none, w := { s.w with frameOffsets := [], chksums := [] } }
 
 /-- `readPage`: latest version of a page before the current transaction -/
@@ -276,7 +279,7 @@ def commitWALBody (s : Eng) : M Eng := do
     let prevPageN := s.pageN
     let hdr : LTXFile := { minTxid := txid, maxTxid := txid, pre := s.posChk, post := 0, commit, pageSize := s.pageSize,
                            walOffset := s.w.offset, walSize := tx.endOffset - s.w.offset, salt1 := s.w.salt1, salt2 := s.w.salt2, pages := [] }
-    if !headerOK hdr then fail s .err
+    ensure s (¬ (!headerOK hdr)) .err
     let pgnos := sortNat (tx.offsets.map (·.1))
     let lock ← liftCk s (lockPgno s.pageSize)
     let (pages, newCks, _) ← pgnos.foldlM (fun (st : List (Nat × ByteArray) × List (Nat × Chk) × Nat) pgno => do
@@ -284,7 +287,7 @@ def commitWALBody (s : Eng) : M Eng := do
       if pgno = lock then pure st else
       let off := (tx.offsets.lookup pgno).getD 0
       let data := wal.extract (off + 24) (off + 24 + s.pageSize)
-      if !encodePageOK txid commit s.pageSize prev pgno then fail s .err
+      ensure s (¬ (!encodePageOK txid commit s.pageSize prev pgno)) .err
       let _ ← liftCk s (s.ck.pageChecksum s.w.chksums s.pageSize pgno s.pageN [])
       pure (pages ++ [(pgno, data)], mapSet nc pgno (pageChk pgno data), pgno)) ([], [], 0)
     -- remove checksum of truncated pages
@@ -293,11 +296,11 @@ def commitWALBody (s : Eng) : M Eng := do
       if pgno = lock then pure nc else
       let page ← readPage s dbf wal pgno
       let (prevChk, _) ← liftCk s (s.ck.pageChecksum s.w.chksums s.pageSize pgno s.pageN [])
-      if pageChk pgno page != prevChk then fail s .err
+      ensure s (¬ (pageChk pgno page != prevChk)) .err
       pure (mapSet nc pgno 0)) newCks
     let (ck, post) ← liftCk s (s.ck.checksum s.w.chksums s.pageSize commit newCks)
     let s := { s with ck := ck }
-    if !s.writeable then fail s .err
+    ensure s (¬ (!s.writeable)) .err
     let file := { hdr with post := post, pages := pages }
     let fo := tx.offsets.foldl (fun m e => mapSet m e.1 e.2) s.w.frameOffsets
     let cks := newCks.foldl (fun (m : WalCks) e => mapSet m e.1 ((m.lookup e.1).getD [] ++ [e.2])) s.w.chksums
@@ -329,11 +332,11 @@ def unlock (s : Eng) (owner : Nat) (ls : List LockType) : Eng × Res :=
 
 /-- `Drop` (behind the mount's primary-only gate) -/
 def drop (s : Eng) : M Eng := do
-  if !s.primary then fail s .readonly
+  ensure s (¬ (!s.primary)) .readonly
   let txid := s.posTxid + 1
   let hdr : LTXFile := { minTxid := txid, maxTxid := txid, pre := s.posChk, post := flag, commit := 0, pageSize := s.pageSize, pages := [] }
-  if !headerOK hdr then fail s .err
-  if !s.writeable then fail s .err
+  ensure s (¬ (!headerOK hdr)) .err
+  ensure s (¬ (!s.writeable)) .err
   pure { s with ltx := addLTX s.ltx hdr, dbFile := none, journal := none, wal := none,
                 walMode := false, pageN := 0, posTxid := txid, posChk := flag,
                 w := { s.w with offset := 0, chk1 := 0, chk2 := 0, frameOffsets := [], chksums := [] } }
@@ -346,7 +349,7 @@ def checkpointNoLock (s : Eng) : M Eng := do
   let (offs, commit) ← liftCk s (walPageOffsets wal)
   let s ← (if offs.isEmpty then pure s else do
     let hps := match readWalHeader wal with | .ok (.ok h) => h.pageSize | _ => 0
-    if hps ≠ s.pageSize then fail s .err
+    ensure s (¬ (hps ≠ s.pageSize)) .err
     let s ← offs.foldlM (fun (s : Eng) e => writeDatabasePage s e.1 (wal.extract (e.2 + 24) (e.2 + 24 + s.pageSize))) s
     let s ← truncateDatabaseFile s commit
     pure { s with pageN := commit })
@@ -378,11 +381,9 @@ def logicalPages (s : Eng) : Option (List ByteArray) :=
 /-- `WriteLTXFileAt`: position check, then (file-level validity is the harness's business) add to
     the log; a snapshot replaces the whole log -/
 def writeLTXFile (s : Eng) (f : LTXFile) : M Eng := do
-  if f.minTxid ≠ 1 then
-    if f.minTxid ≠ s.posTxid + 1 then fail s .rejected
-    if f.pre ≠ s.posChk then fail s .rejected
-  let l := if f.minTxid = 1 then [] else s.ltx
-  pure { s with ltx := addLTX l f }
+  ensure s (f.minTxid = 1 ∨ f.minTxid = s.posTxid + 1) .rejected
+  ensure s (f.minTxid = 1 ∨ f.pre = s.posChk) .rejected
+  pure { s with ltx := addLTX (if f.minTxid = 1 then [] else s.ltx) f }
 
 /-- `ApplyLTXNoLock(path, fatalOnError)` -/
 def applyLTX (s : Eng) (f : LTXFile) (fatal : Bool) : M Eng := do
@@ -395,7 +396,7 @@ def applyLTX (s : Eng) (f : LTXFile) (fatal : Bool) : M Eng := do
   wrap (do
     let (s, wm) ← f.pages.foldlM (fun (st : Eng × Bool) p => do
       let (s, wm) := st
-      if p.2.size ≠ f.pageSize then fail s .err
+      ensure s (¬ (p.2.size ≠ f.pageSize)) .err
       let wm := if p.1 = 1 && getD p.2 18 == 2 && getD p.2 19 == 2 then true else wm
       let s ← writeDatabasePage s p.1 p.2
       pure (s, wm)) (s, s.walMode)
@@ -406,7 +407,7 @@ def applyLTX (s : Eng) (f : LTXFile) (fatal : Bool) : M Eng := do
     let s := { s with pageN := f.commit, walMode := wm }
     let (ck, chk) ← liftCk s (s.ck.checksum s.w.chksums s.pageSize f.commit [])
     let s := { s with ck := ck }
-    if chk ≠ f.post then fail s .err
+    ensure s (¬ (chk ≠ f.post)) .err
     pure { s with posTxid := f.maxTxid, posChk := f.post })
 
 /-- the stream / forwarding path: write-lock bracket, `WriteLTXFileAt`, `ApplyLTXNoLock(fatal)` -/
@@ -420,9 +421,14 @@ def receiveLTX (s : Eng) (f : LTXFile) : M Eng := do
     | .ok s' => pure { s' with locks := s'.locks.unlockAll i }
     | .error (s', r) => fail { s' with locks := s'.locks.unlockAll i } r
 
+/-- the forwarding endpoint's path (`handlePostTx`): no lock bracket of its own -/
+def receiveTx (s : Eng) (f : LTXFile) : M Eng := do
+  let s ← writeLTXFile s f
+  applyLTX s f true
+
 /-- `importToLTX` + `Import` -/
 def importDB (s : Eng) (data : ByteArray) : M Eng := do
-  if !s.primary then fail s .readonly
+  ensure s (¬ (!s.primary)) .readonly
   match s.locks.tryAcquireWriteLock s.walMode with
   | (t, none) => fail { s with locks := t } .busy
   | (t, some i) =>
@@ -433,19 +439,19 @@ def importDB (s : Eng) (data : ByteArray) : M Eng := do
       let h ← (match readDBHeader data with | .error _ => fail s .err | .ok h => pure h)
       let txid := s.posTxid + 1
       let hdr : LTXFile := { minTxid := txid, maxTxid := txid, pre := s.posChk, post := 0, commit := h.pageN, pageSize := h.pageSize, pages := [] }
-      if !headerOK hdr then fail s .err
+      ensure s (¬ (!headerOK hdr)) .err
       let lock := 1073741824 / h.pageSize + 1
       let (pages, chk, _) ← (List.range h.pageN).foldlM (fun (st : List (Nat × ByteArray) × Chk × Nat) i => do
         let (pages, chk, prev) := st
         let pgno := i + 1
-        if data.size < (i + 1) * h.pageSize then fail s .err
+        ensure s (¬ (data.size < (i + 1) * h.pageSize)) .err
         if pgno = lock then pure st else
         let buf := data.extract (i * h.pageSize) ((i + 1) * h.pageSize)
         let buf := if pgno = 1 then writeAt (writeAt buf 24 (zeros 4)) 40 (zeros 4) else buf
-        if !encodePageOK txid h.pageN h.pageSize prev pgno then fail s .err
+        ensure s (¬ (!encodePageOK txid h.pageN h.pageSize prev pgno)) .err
         pure (pages ++ [(pgno, buf)], flag ||| (chk ^^^ pageChk pgno buf), pgno)) ([], 0, 0)
       -- Close: trailer validation (post-apply checksum must carry the flag; empty database ⇒ flag only)
-      if chk = 0 then fail s .err
+      ensure s (¬ (chk = 0)) .err
       let file := { hdr with post := chk, pages := pages }
       let s := { s with ltx := addLTX s.ltx file }
       applyLTX s file true
